@@ -16,7 +16,8 @@ impl<'a> Read for Seg<'a> {
 
 /// C18: declared label (any case) known -> that charset; else configured default; else windows-1252
 #[test]
-fn vp_native_charset_selection() {
+fn vp_native_charset_selection() { crate::verif_native_watchdog::watched(vp_native_charset_selection_body); }
+fn vp_native_charset_selection_body() {
     let labels = [("utf-8", Some(charsets::UTF_8)), ("UTF-8", Some(charsets::UTF_8)), ("Utf8", Some(charsets::UTF_8)), ("iso-8859-2", Some(charsets::ISO_8859_2)), ("Shift_JIS", Some(charsets::SHIFT_JIS)),
                   ("windows-1251", Some(charsets::WINDOWS_1251)), ("latin1", Some(charsets::WINDOWS_1252)), ("bogus-charset", None), ("", None)];
     let shapes = ["text/html; charset={}", "text/html;charset={}", "text/html;  charset={}", "application/json; charset={}"];
@@ -73,7 +74,8 @@ fn vp_native_charset_selection() {
 /// C18: the streaming reader equals decoding the whole body at once, for every split of the body into reads; malformed
 /// sequences in the middle of the body become replacement characters, never errors
 #[test]
-fn vp_native_streaming_equals_whole() {
+fn vp_native_streaming_equals_whole() { crate::verif_native_watchdog::watched(vp_native_streaming_equals_whole_body); }
+fn vp_native_streaming_equals_whole_body() {
     let texts = ["", "plain ascii", "héllo wörld — ✓ 日本語 한국어 中文", "ÀÉÎÕÜ ¿¡ €"];
     let sets = [charsets::UTF_8, charsets::SHIFT_JIS, charsets::WINDOWS_1252, charsets::ISO_8859_2, charsets::EUC_KR, charsets::GBK, charsets::BIG5, charsets::KOI8_R];
     let mut cases = 0u64;
@@ -99,7 +101,8 @@ fn vp_native_streaming_equals_whole() {
 
 /// C18 totality on bodies that END inside a multi-byte sequence (truncated tail): must decode to a replacement character, never fail
 #[test]
-fn vp_native_text_total_on_truncated_tail() {
+fn vp_native_text_total_on_truncated_tail() { crate::verif_native_watchdog::watched(vp_native_text_total_on_truncated_tail_body); }
+fn vp_native_text_total_on_truncated_tail_body() {
     let cases_in: [(&[u8], crate::Charset); 6] = [(b"caf\xC3", charsets::UTF_8), (&[0xC4, 0xE3, 0xBA, 0xC3], charsets::UTF_8), (&[0xE6, 0x97, 0xA5, 0xE6, 0x9C], charsets::GBK),
         (&[0xE6, 0x97, 0xA5, 0xE6, 0x9C], charsets::BIG5), (&[0x82, 0xB1, 0x82], charsets::SHIFT_JIS), (&[0xB0, 0xA1, 0xB0], charsets::EUC_KR)];
     let mut cases = 0u64;
@@ -119,7 +122,8 @@ fn vp_native_text_total_on_truncated_tail() {
 /// C18 through the response helpers: text() / text_with() / text_utf8() equal decoding the whole body with the selected charset
 /// (complete bodies, malformed bytes mid-body, and a valid prefix followed by a lone lead byte at the very end)
 #[test]
-fn vp_native_text_helpers_decode_whole_body() {
+fn vp_native_text_helpers_decode_whole_body() { crate::verif_native_watchdog::watched(vp_native_text_helpers_decode_whole_body_body); }
+fn vp_native_text_helpers_decode_whole_body_body() {
     use crate::parsing::response::parse_response;
     use crate::request::PreparedRequest;
     use crate::streams::BaseStream;
